@@ -147,6 +147,16 @@ def run(spec, mon):
                         )
                 mon.nt(f"floor/{bucket}")
                 mon.cls("reverse-ticks-probed")
+        if t == O.MAX_TICK:
+            # the top of the range: the greatest tick whose sqrt price does not exceed MAX_SQRT_RATIO is MAX_TICK itself
+            mon.ev()
+            try:
+                got = H.sqrt_price_x96_to_tick(s)
+            except Exception as e:  # noqa
+                got = f"raised {e!r}"
+            mon.cls("reverse-top-tick-probed")
+            if got != t:
+                mon.violation("uniswap", "sqrt_price_x96_to_tick", "floor", "pos/on-boundary/top", f"x=ratio({t})={s} mapped to {got}", {"x": s, "tick": t})
     mon.note(f"worst_err_over_bound_shard{spec['shard']}", str(worst)[:12])
     if only is not None and only[0] == "tick":
         return
